@@ -609,9 +609,19 @@ int fcntl(int fd, int cmd, ...) {
   long val = va_arg(args, long);
   va_end(args);
 
-  if (!thread_locked) {
+  if (!fibershim_fcntl) {
+    fibershim_fcntl = (fcntlFnType)dlsym(RTLD_NEXT, "fcntl");
+  }
+
+  // descriptors outside the table (negative, too large) go straight to the
+  // real call, which reports the error
+  if (!thread_locked && fd_info && fd >= 0 && fd < max_fd) {
     if (cmd == F_SETFL && (val == O_NONBLOCK || val == O_NDELAY)) {
-      assert(fd < max_fd);
+      // the descriptor stays non-blocking in the kernel; this also reports
+      // EBADF for a descriptor that is not open
+      if (fibershim_fcntl(fd, F_SETFL, O_NONBLOCK) < 0) {
+        return -1;
+      }
       atomic_fetch_and(&fd_info[fd].flags_, ~IO_FLAG_BLOCKING);
       assert(!(fd_info[fd].flags_ & IO_FLAG_BLOCKING));
       return 0;
@@ -620,10 +630,6 @@ int fcntl(int fd, int cmd, ...) {
     if (cmd == F_SETFL) {
       val |= O_NONBLOCK;
     }
-  }
-
-  if (!fibershim_fcntl) {
-    fibershim_fcntl = (fcntlFnType)dlsym(RTLD_NEXT, "fcntl");
   }
 
   return fibershim_fcntl(fd, cmd, val);
@@ -635,12 +641,21 @@ int ioctl(IOCTLPARAMS) {
   void* val = va_arg(args, void*);
   va_end(args);
 
-  if (!thread_locked && request == FIONBIO) {
+  if (!fibershim_ioctl) {
+    fibershim_ioctl = (ioctlFnType)dlsym(RTLD_NEXT, "ioctl");
+  }
+
+  if (!thread_locked && request == FIONBIO && fd_info && d >= 0 && d < max_fd) {
     if (!val) {
       errno = EINVAL;
       return -1;
     }
-    assert(d < max_fd);
+    // the descriptor stays non-blocking in the kernel; this also reports
+    // EBADF for a descriptor that is not open
+    int on = 1;
+    if (fibershim_ioctl(d, FIONBIO, &on) < 0) {
+      return -1;
+    }
     if (*(int*)val) {
       atomic_fetch_and(&fd_info[d].flags_, ~IO_FLAG_BLOCKING);
       assert(!(fd_info[d].flags_ & IO_FLAG_BLOCKING));
@@ -664,7 +679,7 @@ int close(int fd) {
   }
 
   fiber_fd_closed(fd);
-  if (fd_info && fd < max_fd) {
+  if (fd_info && fd >= 0 && fd < max_fd) {
     fd_info[fd].flags_ = 0;
   }
   return fibershim_close(fd);
